@@ -24,7 +24,8 @@ CHECKS = {
     "C01": {
         "module": "Vanguard.Props.C01", "namespace": "Vanguard.C01", "streams": ["e2e", "rest"],
         "partial": "per-message transformation is proved for every world satisfying the codec/compressor laws; whole request streams on the re-encoding "
-                   "path are proved to reach the backend as exactly the converted messages in order (any read sizes); for the re-framing path and the "
+                   "path are proved to reach the backend as exactly the converted messages in order (any read sizes), and on the re-framing path "
+                   "(client and backend with envelopes) as exactly the client's payloads under the backend's envelopes (any read sizes, any segmentation); for the "
                    "response direction whole-stream fidelity is checked against ground truth on fake codecs (raw/hexa/rev) and RLE compressors, not on real proto/json/gzip",
         "assumptions": E2E_ASSUME + ["WorldLaws (decode∘encode = id, decompress∘compress = id, compressed output non-empty) are hypotheses"],
     },
@@ -48,7 +49,8 @@ CHECKS = {
         "partial": "segmentation independence is proved for the primitive exact reader (io.ReadFull/CopyN over adversarial chunkings) and for the "
                    "transcoder's message reader (the sequence of enveloped request messages and its final condition); "
                    "handler read-buffer sizes are proved irrelevant for the re-encoding reader (any sizes >= 1, same bytes and final error) and splitting "
-                   "the backend's output across Write calls for the re-encoding writer; for the re-framing reader's read sizes and the re-framing "
+                   "the backend's output across Write calls for the re-encoding writer; read sizes and segmentation are proved irrelevant for the re-framing "
+                   "reader as well (client and backend with envelopes); for the re-framing "
                    "writer's write pieces and flushes it is checked metamorphically on model and implementation",
         "assumptions": E2E_ASSUME,
     },
